@@ -24,6 +24,11 @@ def page_bounds(table_lines, serials, pcml):
 
 def gen_case(rng, i, tier):
     links = V.gen_links(rng)
+    if i % 6 == 4:
+        # a link much longer than the 64 kB the bisection reads at a time (shorter ones are scanned linearly), targets in its first pages
+        links = ["link 2 44100 %s %d %d %d 0 0" % (rng.choice([0.4, 0.7]), rng.choice([500000, 800000]), rng.choice([2, 5]), rng.randrange(1, 90000))]
+        if rng.random() < 0.4:
+            links.insert(rng.randrange(2), V.gen_links(rng, 1, tiny=True)[0])
     lens = [int(l.split(" ")[4]) for l in links]
     rates = [int(l.split(" ")[2]) for l in links]
     total = sum(lens)
@@ -36,6 +41,9 @@ def gen_case(rng, i, tier):
         tb.append(tb[-1] + 1000.0 * n / r)
 
     def target():
+        if i % 6 == 4 and rng.random() < 0.6:
+            k = max(range(len(lens)), key=lambda j: lens[j])
+            return bounds[k] + rng.randrange(0, 60000)
         b = rng.choice(bounds)
         return rng.choice([b, b + 1, b - 1, rng.randrange(0, total + 2), total, total - 1, 0, 1,
                            rng.choice([256, 512, 1024, 2048, 4096]) * rng.randrange(1, 8) + rng.choice([-1, 0, 1])])
